@@ -1,4 +1,5 @@
 import LnModel.Emit.Request
+import LnModel.Domain2
 import LnModel.Lemmas.Ident
 import LnModel.Thm.C13
 /-! C03, the path: the format string emitted for an operation with path parameters, evaluated as
@@ -24,17 +25,6 @@ def fillBraces (args : Text → Option Text) : Nat → Text → Option Text
     else match fillBraces args fuel rest with
       | some t => some (c :: t)
       | none => none
-
-/-- a path template whose braces are exactly placeholders `{name}`, each name in the name domain of D -/
-def templateOk : Nat → Text → Bool
-  | 0, _ => false
-  | _ + 1, [] => true
-  | fuel + 1, c :: rest =>
-    if c == '{' then
-      let w := rest.takeWhile notBrace
-      let after := rest.dropWhile notBrace
-      inNameDomain w && after.head? == some '}' && templateOk fuel (after.drop 1)
-    else c != '}' && templateOk fuel rest
 
 theorem takeWhile_append_stop {p : Char → Bool} (w rest : Text) (hw : ∀ c ∈ w, p c = true)
     (hr : ∀ c, rest.head? = some c → p c = false) :
